@@ -263,13 +263,13 @@ def translate_metrics(repo):
         members = [t.id for n in classes["PoseRelation"].body if isinstance(n, ast.Assign) for t in n.targets if isinstance(t, ast.Name)]
         if sorted(members) != sorted(RELS):
             raise Unsupported("PoseRelation members are %r" % members)
-    except (Unsupported, OSError, SyntaxError) as e:
+    except Exception as e:  # noqa: fail-closed whatever goes wrong
         return HEADER + "\n".join(APE_STUB + RPE_STUB) + "\nEnd Gen.\n", {"ape": str(e), "rpe": str(e)}
     parts = []
     for name, fn, stub_defs in (("ape", _translate_ape, APE_STUB), ("rpe", _translate_rpe, RPE_STUB)):
         try:
             parts += fn(classes)
-        except (Unsupported, KeyError, IndexError, AttributeError, TypeError) as e:
+        except Exception as e:  # noqa: fail-closed whatever goes wrong
             failed[name] = "%s: %s" % (type(e).__name__, e)
             parts += stub_defs
     return HEADER + "\n".join(parts) + "\nEnd Gen.\n", failed
@@ -306,7 +306,7 @@ def regenerate_ties(ctx, repo, coq_dir, only=None, metrics=True):
     met_path = os.path.join(coq_dir, "generated", "MetricsGen.v")
     try:
         text, lits, failed = pyast_np.translate_lie(repo)
-    except (Unsupported, OSError, SyntaxError, KeyError, IndexError, AttributeError, TypeError) as e:
+    except Exception as e:  # noqa: fail-closed whatever goes wrong
         text, lits = pyast_np.lie_stub(), {"lit_1em06": 1e-06}
         failed = {n: "%s: %s" % (type(e).__name__, e) for n in pyast_np.LIE_ORDER}
     if lits != {"lit_1em06": 1e-06}:
